@@ -331,7 +331,9 @@ func c02Gen(t *rapid.T) C02Case {
 	states := []string{"running", "exited", "paused"}
 	dockerKeys := []string{"com.docker.compose.service", "com.docker.compose.project", "env", "tier", "a-b", "a/b c", "1st", "maintainer", "org.label-schema.name", "ünï",
 		// keys spelled like the daemon's own container attributes / list filters
-		"id", "name", "image", "status", "label", "ancestor"}
+		"id", "name", "image", "status", "label", "ancestor",
+		// keys named like the labels the engine derives from a record itself
+		"msg", "level", "trace_id", "span_id", "severity"}
 	dockerVals := []string{"web", "db", "prod", "", "x y", "1", "prod-eu", "/srv/shop", "/", "/web", "web/", ".*", "web|db", "Web", " web", "web\n", "\t", " "}
 	usedID := map[string]bool{}
 	for i := 0; i < n; i++ {
